@@ -24,8 +24,8 @@ ASSUMPTIONS = [
     "no eviction / clear / source change happens in these histories",
 ]
 SHARDS = c02.SHARDS
-FLOORS = {"quick": {"calls_checked": 8000, "expected_hits": 3000, "hits_in_other_process": 300, "check_call_in_cache_queries": 2500, "ignore_variant_hits": 100},
-          "thorough": {"calls_checked": 80000, "expected_hits": 30000, "hits_in_other_process": 3000, "check_call_in_cache_queries": 25000, "ignore_variant_hits": 1000}}
+FLOORS = {"quick": {"calls_checked": 8000, "expected_hits": 3000, "hits_in_other_process": 300, "check_call_in_cache_queries": 2500, "ignore_variant_hits": 100, "histories_through_recached_wrappers": 25},
+          "thorough": {"calls_checked": 80000, "expected_hits": 30000, "hits_in_other_process": 3000, "check_call_in_cache_queries": 25000, "ignore_variant_hits": 1000, "histories_through_recached_wrappers": 300}}
 
 
 def cases(tier, seed):
